@@ -540,6 +540,8 @@ def run(ctx):
         nrows["opt_tight"] += int(tight)
         nrows["hard"] += sum(int(r[3]) for r in v if r[2] == "ineq-rows")
         nrows["ineq_calls"] += sum(1 for r in v if r[2] == "ineq-backeq")
+        nrows["cl1_kode0_infeasible_answers"] = nrows.get("cl1_kode0_infeasible_answers", 0) + sum(1 for r in v if r[2] == "ineq-cl1-feasible" and r[5] == 0.0)
+        nrows["cl1_kode0_sign_violations"] = nrows.get("cl1_kode0_sign_violations", 0) + sum(1 for r in v if r[2] == "ineq-cl1-signs" and r[5] == 0.0)
         if tot >= 5 and tight < 0.8 * tot:
             probe_fail.append((i, ("T", "-", "ineq-opt-rows", "0", False, tight, tot)))
     ctx.cov["ineq_rows_checked"] = nrows
